@@ -449,22 +449,23 @@ func genDagDef(r *rand.Rand, maxN int, history bool) *DagDef {
 			id := ids[r.Intn(n)]
 			pos := r.Intn(len(d.Ops) + 1)
 			var op GOp
-			switch r.Intn(9) {
-			case 0, 1:
+			switch r.Intn(24) {
+			case 0, 1, 2, 3, 4:
 				op = GOp{Kind: "add", T: arg(id)}
-			case 2:
+			case 5, 6, 7, 8:
 				obj[id]++
 				op = GOp{Kind: "add", T: arg(id)}
-			case 3:
+			case 9, 10, 11, 12, 13, 14:
+				// an extra edge: may duplicate an edge (definition error), be a self edge or close a cycle
 				op = GOp{Kind: "dep", T: arg(id), Deps: []TaskArg{arg(ids[r.Intn(n)])}}
-			case 4:
+			case 15:
 				op = GOp{Kind: "add", T: TaskArg{Nil: true}}
-			case 5:
+			case 16:
 				op = GOp{Kind: "add", T: TaskArg{ID: "", HasFn: true}}
-			case 6:
+			case 17:
 				op = GOp{Kind: "add", T: TaskArg{ID: "nofn", HasFn: false}}
-			case 7:
-				op = GOp{Kind: "retries", T: arg(id), Retries: r.Intn(3) - 1 + 1}
+			case 18, 19, 20, 21, 22:
+				op = GOp{Kind: "retries", T: arg(id), Retries: r.Intn(4) - 1}
 			default:
 				op = GOp{Kind: "dep", T: arg(id), Deps: []TaskArg{{Nil: true}}}
 			}
@@ -474,6 +475,14 @@ func genDagDef(r *rand.Rand, maxN int, history bool) *DagDef {
 	switch r.Intn(6) {
 	case 0:
 		d.Serial = true
+		// a task with negative retries never enters its function; in serial mode the moment the
+		// scheduler picks it is not observable and changes the result when another task fails, so
+		// the combination is not generated (the acceptor follows one pick order)
+		for i := range d.Ops {
+			if d.Ops[i].Kind == "retries" && d.Ops[i].Retries < 0 {
+				d.Ops[i].Retries = 0
+			}
+		}
 	case 1, 2:
 		d.Cap = 1 + r.Intn(3)
 	}
